@@ -5,29 +5,52 @@ CHECK = {
         suite("monitor", "c09", 2000, 12000, stdin=True, args=["-suite", "monitor"]),
         suite("cadence", "c09", 0, 60, stdin=True, args=["-suite", "cadence"],
               timeout={"quick": 300, "thorough": 800}),
+        # round 7: real clock inside a case (millisecond TTLs, real sleeps), the real Checker.Watch loop,
+        # and the receive path of pubsubmon through real pubsub messages
+        suite("timed", "c09", 100, 1500, stdin=True, args=["-suite", "timed"],
+              timeout={"quick": 300, "thorough": 1500}),
+        suite("watch", "c09", 40, 600, stdin=True, args=["-suite", "watch"],
+              timeout={"quick": 300, "thorough": 1500}),
+        suite("recv", "c09", 150, 1500, stdin=True, args=["-suite", "recv"],
+              timeout={"quick": 300, "thorough": 1500}),
     ],
-    "lean_sources": ["ClusterVerif/Gen/C09.lean", "ClusterVerif/Model/C09.lean", "ClusterVerif/Spec/C09.lean", "ClusterVerif/Lemmas/C09.lean"],
+    "lean_sources": ["ClusterVerif/Gen/C09.lean", "ClusterVerif/Model/C09.lean", "ClusterVerif/Model/C09Source.lean", "ClusterVerif/Spec/C09.lean",
+                     "ClusterVerif/Lemmas/C09.lean", "ClusterVerif/Lemmas/C09Time.lean"],
     "rule": "history cases = (window capacity, accrual oracle forced true/false through the checker threshold or left to the real phi, "
             "initial peerset, 0-320 operations: arrivals with validity/expiry flags, RemovePeer, RemovePeerMetrics, peerset changes "
             "(known/none/failing), LatestMetrics queries, Watch ticks, CheckPeers calls with arbitrary lists) drawn from one splitmix64 "
-            "stream per case index; non-trivial = the history contains a query or a failure check; distinct by case line",
+            "stream per case index; non-trivial = the history contains a query or a failure check; distinct by case line. "
+            "timed cases: 5-14 operations with real sleeps between them, metric TTLs of 150-400 ms, every query/check scheduled >= 60 ms away from "
+            "every expiry instant; watch cases: the real Checker.Watch with a 40/50 ms interval, operations and expiries at mid-interval instants; "
+            "recv cases: 4-20 operations whose arrivals are real pubsub messages of 21 encodings (well-formed, odd but accepted, zero value, malformed); "
+            "a timed run whose real timestamps do not confirm the nominal order with 5 ms to spare is re-run (3x) and then counted inconclusive",
     "trusted_base": ["harness copies of two dispatches: Watch's tick (CheckPeers(peerset) / CheckAll / nothing) and, in the history suite only, "
                      "LatestMetrics = LatestValid + PeersetFilter (the monitor suite runs the real pubsubmon.Monitor.LatestMetrics)",
-                     "expiry instants are hours away from the wall clock (or 0 / MaxInt64), so `expired` is a constant of each metric",
+                     "history/monitor suites: expiry instants are hours away from the wall clock (or 0 / MaxInt64); timed/watch suites: the nominal "
+                     "millisecond schedule of a case is the model's clock, accepted only when the real timestamps confirm every (observation, expiry) order",
+                     "the payload classes of the receive path (well-formed / zero value / malformed) are a hand-written classification of 21 concrete "
+                     "encodings; the correspondence run sends each through real pubsub into the real msgpack decoder",
+                     "/repo/monitor/pubsubmon/verif_export_c09.go (build tag verif): VerifStore / VerifChecker accessors",
                      "verif_export.go wrappers (VerifNewCluster, VerifPushInformerMetrics, VerifPushPingMetrics) and common.StoreMonitor as recording monitor"],
     "assumptions": ["the float decision phi(v, d) >= threshold of the accrual detector is an oracle Boolean of the model (not modelled); "
                     "within one CheckPeers call it is the same for repeated visits of one (name, peer)",
                     "Window.Add stamps every arrival with a distinct, increasing ReceivedAt (modelled as arrival position + 1)",
+                    "Metric.Expired is strict (`time.Now().After`): at the expiry instant itself the metric is still fresh; no timed run can observe the "
+                    "boundary, it is tied by the regenerated source text of Expired/Discard (theorems gen_source_*)",
+                    "the identity of the pubsub sender is not compared with metric.Peer by the code (nor by the model): `member` means the peer named in the metric",
                     "cadence: every step of a publish iteration happens within delay < TTL/4 of the timer firing (TTL/10 for the one-error theorem)"],
 }
 META = {
-    "text": "Kernel-checked theorems over an executable model of metrics.Window/Store/Checker and LatestMetrics: for every history of arrivals, "
+    "text": "Kernel-checked theorems over an executable model of metrics.Window/Store/Checker, LatestMetrics, the receive loop of pubsubmon and the Watch loop: "
+            "for every history of arrivals with arbitrary expiry instants, clock advances (a metric fresh at one check is expired at a later one), received pubsub payloads, "
             "removals, peerset changes, queries and failure checks (any window capacity > 0, any accrual oracle) the model's observations satisfy "
             "the safety clauses of the property (at most one metric per peer, the most recent, valid, unexpired, member; fresh never alerted; "
             "never alerted twice without renewal; only reported stale metrics forgotten); and the exactly-once clauses (a covered stale metric is alerted by the check that finds it, forgotten by the next; across renewals, removals, both check kinds) with no hypothesis on the history; "
             "the alert threshold and accrual constants are regenerated from the source (Gen/C09.lean); window wrap-around; publish-loop recurrences overlap for every TTL > 0. "
             "Tied to today's code by running the real Store/Checker/pubsubmon.Monitor on seeded histories and comparing every observation with the model "
-            "and with the Lean property checker; cadence measured on the real loops with millisecond TTLs (corpus cases in quick, random cases in thorough).",
+            "and with the Lean property checker; time inside a case is tied with millisecond TTLs and real sleeps (timed suite), the real Checker.Watch ticker (watch suite) "
+            "and real pubsub messages including malformed ones (recv suite); between two renewals of a (peer, metric) at most one alert, exactly one once a covering check finds it expired; "
+            "a malformed message changes nothing; a failing peerset function skips the round and keeps the pending alert; cadence measured on the real loops with millisecond TTLs (corpus cases in quick, random cases in thorough).",
     "note": "Trusted: Lean kernel (+propext, Classical.choice, Quot.sound), the hand-written model/spec, the Go harness. The phi float arithmetic is an oracle.",
     "technique": "Lean 4 invariants over histories + differential correspondence with the real monitor code",
 }
